@@ -1210,6 +1210,7 @@ async fn load_targets(
             max_targets_size,
             delegations,
             datastore,
+            &[],
         )
         .await?;
     }
@@ -1220,8 +1221,10 @@ async fn load_targets(
     Ok(targets)
 }
 
-// Follow the paths of delegations starting with the top level targets.json delegation
+// Follow the paths of delegations starting with the top level targets.json delegation.
+// `ancestors` holds the names of the delegated roles on the path down to `delegation`.
 #[async_recursion]
+#[allow(clippy::too_many_arguments)]
 async fn load_delegations(
     transport: &dyn Transport,
     snapshot: &Signed<Snapshot>,
@@ -1230,10 +1233,19 @@ async fn load_delegations(
     max_targets_size: u64,
     delegation: &mut Delegations,
     datastore: &Datastore,
+    ancestors: &[String],
 ) -> Result<()> {
     let mut delegated_roles: HashMap<String, Option<Signed<crate::schema::Targets>>> =
         HashMap::new();
     for delegated_role in &delegation.roles {
+        // A role that delegates (directly or through its delegates) to itself would be fetched
+        // over and over again.
+        ensure!(
+            !ancestors.contains(&delegated_role.name),
+            error::DelegationCycleSnafu {
+                name: delegated_role.name.clone(),
+            }
+        );
         // find the role file metadata
         let role_meta = snapshot
             .signed
@@ -1303,6 +1315,8 @@ async fn load_delegations(
                 })?;
         if let Some(targets) = &mut delegated_role.targets {
             if let Some(delegations) = &mut targets.signed.delegations {
+                let mut path = ancestors.to_vec();
+                path.push(delegated_role.name.clone());
                 load_delegations(
                     transport,
                     snapshot,
@@ -1311,6 +1325,7 @@ async fn load_delegations(
                     max_targets_size,
                     delegations,
                     datastore,
+                    &path,
                 )
                 .await?;
             }
